@@ -19,12 +19,81 @@ from golem.core.dag.graph import ReconnectType
 from golem.core.optimisers.graph import OptGraph, OptNode
 from golem.utilities.data_structures import UniqueList
 
-REQ = ['Graph.OpsSpec']
+REQ = ['Graph.OpsSpec', 'Graph.OpsSpecPlain']
 PRE = 'From GolemV Require Import Graph.Heap Graph.Ops.\nLocal Open Scope nat_scope.'
-FN = 'fun c => match c with (h, g, o, ob) => check (h, g) o ob end'
-K = 7
+FN = 'fun c => match c with (h, g, o, ob) => check2 (h, g) o ob end'
+K = 9
 MODES = {'none': ('RNone', ReconnectType.none), 'single': ('RSingle', ReconnectType.single),
          'all': ('RAll', ReconnectType.all)}
+
+
+# ------------------------------------------------------------------------------------------
+# user-defined node classes (public GraphNode interface, parents in an ordinary list)
+# ------------------------------------------------------------------------------------------
+from golem.core.dag.graph_node import GraphNode  # noqa: E402
+
+
+class PlainNode(GraphNode):
+    """implements the abstract interface itself; nodes_from is a plain list"""
+
+    def __init__(self, name, nodes_from=None):
+        super().__init__()
+        self.content = {'name': name}
+        self._parents = list(nodes_from or [])
+
+    @property
+    def nodes_from(self):
+        return self._parents
+
+    @nodes_from.setter
+    def nodes_from(self, nodes):
+        self._parents = list(nodes or [])
+
+    @property
+    def name(self):
+        return self.content['name']
+
+    def __str__(self):
+        return str(self.content['name'])
+
+    def __hash__(self):
+        return hash(self.uid)
+
+
+class TupleNode(PlainNode):
+    """the setter rebuilds the container through a tuple (a new list object on every assignment)"""
+
+    @PlainNode.nodes_from.setter
+    def nodes_from(self, nodes):
+        self._parents = list(tuple(nodes or ()))
+
+
+NODE_CLASSES = {'opt': OptNode, 'plain': PlainNode, 'tuple': TupleNode}
+
+
+class CallbackState:
+    """postprocess_nodes callbacks: 'validate' raises KeyError when the node list it is given is not
+    parent-closed / lists a node twice; 'record' only notes that it has seen such a state"""
+
+    def __init__(self, kind):
+        self.kind = kind
+        self.calls = 0
+        self.bad = None
+
+    def __call__(self, graph, nodes):
+        self.calls += 1
+        ids = {id(n) for n in nodes}
+        problem = None
+        if len(ids) != len(nodes):
+            problem = 'a node is listed twice'
+        for n in nodes:
+            for p in n.nodes_from:
+                if id(p) not in ids:
+                    problem = 'parent %s of member %s is not among the nodes' % (p, n)
+        if problem:
+            self.bad = problem
+            if self.kind == 'validate':
+                raise KeyError(problem)
 
 
 # ------------------------------------------------------------------------------------------
@@ -50,8 +119,11 @@ class World:
     def uid(self, u):
         return self.uids.setdefault(u, len(self.uids))
 
+    node_cls = OptNode
+    callback = None
+
     def fresh(self, parents=()):
-        n = OptNode(str(self.next_label), nodes_from=list(parents))
+        n = self.node_cls(str(self.next_label), nodes_from=list(parents))
         self.next_label += 1
         self.reg(n)
         return n
@@ -129,8 +201,11 @@ def build(gspec):
     (a == b: self-assignment).  The documented meaning copies the list: every node owns its container."""
     plists, order = gspec[0], gspec[1]
     share = tuple(gspec[2]) if len(gspec) > 2 else ()
+    opts = dict(gspec[3]) if len(gspec) > 3 else {}
+    OptNode = NODE_CLASSES[opts.get('cls', 'opt')]      # noqa: N806 (node class of this graph)
     ctor_src = {b: a for (b, a, form) in share if form == 'ctor'}
     w = World()
+    w.node_cls = OptNode
     nodes = []
     topological = all(p < i for i, ps in enumerate(plists) for p in ps)
     for i, ps in enumerate(plists):
@@ -149,7 +224,11 @@ def build(gspec):
             nodes[b].nodes_from = nodes[a].nodes_from
     for n in nodes:
         w.reg(n)
-    graph = OptGraph([nodes[i] for i in order])
+    if opts.get('cb'):
+        w.callback = CallbackState(opts['cb'])
+        graph = OptGraph([nodes[i] for i in order], postprocess_nodes=w.callback)
+    else:
+        graph = OptGraph([nodes[i] for i in order])
     return w, graph
 
 
@@ -174,7 +253,7 @@ def make_shape(w, heap, shape):
     if kind == 'member':
         return w.objs[shape[1]]
     if kind == 'like':                  # a new node constructed from the parent container OBJECT of a member
-        n = OptNode(str(w.next_label), nodes_from=w.objs[shape[1]].nodes_from)
+        n = w.node_cls(str(w.next_label), nodes_from=w.objs[shape[1]].nodes_from)
         w.next_label += 1
         w.reg(n)
         return n
@@ -272,6 +351,17 @@ def step(w, graph, desc):
     except (Exception, StepTimeout) as ex:  # noqa
         rec['raise'] = exn_kind(ex)
         rec['msg'] = '%s: %s' % (type(ex).__name__, str(ex)[:80])
+        try:
+            rec['wf_after_raise'] = py_wf(*w.snap(graph))
+        except Exception:  # noqa
+            rec['wf_after_raise'] = False
+        return rec
+    if w.callback is not None and w.callback.bad:
+        # the user's callback was handed an ill-formed intermediate state: an observable failure of the operation
+        rec['raise'] = 'OtherError'
+        rec['msg'] = 'postprocess_nodes callback saw an ill-formed graph: %s' % w.callback.bad
+        w.callback.bad = None
+        rec['wf_after_raise'] = py_wf(*w.snap(graph))
         return rec
     note = ''
     if kind == 'updsub':
@@ -400,7 +490,8 @@ class Collector:
             return False
         self.seen.add(key)
         rec['group'] = group
-        rec['replay'] = {'graph': [list(map(list, gspec[0])), list(gspec[1])] + ([jsonable(gspec[2])] if len(gspec) > 2 else []),
+        rec['replay'] = {'graph': [list(map(list, gspec[0])), list(gspec[1])] + ([jsonable(gspec[2])] if len(gspec) > 2 else []) +
+                                  ([[list(kv) for kv in gspec[3]]] if len(gspec) > 3 else []),
                          'ops': jsonable(descs)}
         self.recs.append(rec)
         if len(self.recs) >= self.BATCH:
@@ -425,7 +516,7 @@ def untuple(x):
     return x
 
 
-def explore(col, group, gspec, depth, rich, rng=None, width=None):
+def explore(col, group, gspec, depth, rich, rng=None, width=None, kinds=None):
     """all sequences of length <= depth from gspec (width: number of sampled continuations per
     state beyond the first step)"""
     def rec_explore(prefix, d):
@@ -436,6 +527,8 @@ def explore(col, group, gspec, depth, rich, rng=None, width=None):
             return
         heap, g = w.snap(graph)
         ops = applicable(heap, g, rich)
+        if kinds is not None:
+            ops = [o for o in ops if o[0] in kinds]
         if prefix and width is not None and len(ops) > width:
             ops = rng.sample(ops, width)
         for o in ops:
@@ -512,18 +605,23 @@ def evaluate(ctx, col):
         if not ag and not ho:
             ctx.canaries_caught += 1
         res = res[:-1]
-    for r, (ag, ho, dom, hwf, hspec, hacy, decl) in zip(recs, res):
+    for r, (ag, ho, dom, hwf, hspec, hacy, decl, hplain, domplain) in zip(recs, res):
         case = dict(r['replay'])
         case['step'] = {'heap': jsonable(r['heap']), 'g': list(r['g']), 'op': r['op'],
                         'observed': r.get('raise') or jsonable(r['after']), 'msg': r.get('msg', '')}
         changed = ('raise' in r) or (r['after'] != (r['heap'], r['g']))
-        ctx.count(r['group'], key=(r['heap'], r['g'], r['op']), nontrivial=bool(dom and changed),
-                  op=r['kind'], in_domain=dom, model_declined=decl, members=len(r['g']),
+        ctx.count(r['group'], key=(r['heap'], r['g'], r['op'], r['replay']['graph'][2:]),
+                  nontrivial=bool((dom or domplain) and changed),
+                  op=r['kind'], in_domain=dom, in_plain_list_domain=domplain, model_declined=decl, members=len(r['g']),
                   outcome=r.get('raise', 'ok' if changed else 'no-change'))
-        if not ho:
+        if not ho or not hplain:
             what = []
             if 'raise' in r:
-                what.append('raises %s inside the domain' % r.get('msg'))
+                what.append('raises %s inside the domain%s' % (
+                    r.get('msg'), '' if r.get('wf_after_raise', True) else ' and leaves an ill-formed graph behind'))
+            elif not hplain and ho:
+                what.append('user node class with a plain parent list: result not well-formed or differs from the '
+                            'documented meaning')
             else:
                 if not hwf:
                     what.append('result not well-formed')
@@ -596,6 +694,32 @@ def run(ctx):
                     explore(col, 'shared-source', (pl, tuple(range(n)), ((b, a, form),)), 2, 'min', rng,
                             ctx.budget(3, 12))
     ctx.set_exhaustive('shared-source', False)
+    # 1c. user node classes that implement GraphNode with an ordinary list (operations whose model does not
+    #     depend on the class's own nodes_from setter)
+    user_kinds = ('conn', 'disc', 'del', 'add', 'updnode')
+    for cls in ('plain', 'tuple'):
+        opt = (('cls', cls),)
+        for n in range(1, 5 if thorough else 4):
+            for pl in dags(n):
+                explore(col, 'user-nodes', (pl, tuple(range(n)), (), opt), 1, 'min', kinds=user_kinds)
+        for n in (2, 3):
+            for pl in dags(n):
+                explore(col, 'user-nodes', (pl, tuple(range(n)), (), opt), 2, 'min', rng, ctx.budget(2, 8),
+                        kinds=user_kinds)
+        if not thorough:
+            for pl in rng.sample(dags(4), 10):
+                explore(col, 'user-nodes', (pl, tuple(range(4)), (), opt), 1, 'min', kinds=user_kinds)
+    ctx.set_exhaustive('user-nodes', False)
+    # 1d. graphs built with a postprocess_nodes callback that validates (or records) the state it is handed
+    for cb in ('validate', 'record'):
+        opt = (('cb', cb),)
+        for n in range(1, 4):
+            for pl in dags(n):
+                explore(col, 'callbacks', (pl, tuple(range(n)), (), opt), 1, False)
+                explore(col, 'callbacks', (pl, tuple(range(n)), (), opt), 2, 'min', rng, ctx.budget(2, 8))
+        for pl in (dags(4) if thorough else rng.sample(dags(4), 12)):
+            explore(col, 'callbacks', (pl, tuple(range(4)), (), opt), 1, 'min')
+    ctx.set_exhaustive('callbacks', False)
     # 2. sequences of length 2 (and 3)
     if thorough:
         for n in range(1, 4):
@@ -629,7 +753,8 @@ def replay(ctx, payload):
     if not case or 'graph' not in case:
         return
     gspec = (tuple(tuple(p) for p in case['graph'][0]), tuple(case['graph'][1])) + \
-        ((untuple(case['graph'][2]),) if len(case['graph']) > 2 else ())
+        ((untuple(case['graph'][2]),) if len(case['graph']) > 2 else ()) + \
+        ((untuple(case['graph'][3]),) if len(case['graph']) > 3 else ())
     descs = [untuple(d) for d in case['ops']]
     col = Collector(ctx)
     w, graph, recs, alive = play(gspec, descs)
